@@ -85,6 +85,11 @@ func wrap180(l float64) float64 {
 type frame struct {
 	nodatum bool
 	ellps   string // ellipsoid clause used by every SR of a datum-less chain
+	// every SR names a datum without a shift (WGS84 / NAD83: datum type "WGS84") and gives its own
+	// ellipsoid explicitly; the ellipsoids of one chain share the eccentricity (spheres of different
+	// radii, or one flattening with different a), so datumTransform has only `a` to tell them apart
+	sameEs bool
+	rf     float64 // 0 = spheres
 }
 
 func ellpsClause(r *vproto.Rng) string {
@@ -120,10 +125,31 @@ func towgs84(r *vproto.Rng, n int) string {
 		p = append(p, ff(rd((r.Float()-0.5)*1600, 3), 3))
 	}
 	if n == 7 {
+		// strata of a 7-term set (the port and proj4js test terms 3..6 for "not all zero"):
+		//  0 rotations all zero, scale non-zero (still a 7-parameter datum)
+		//  1 all four trailing terms zero (a 3-parameter datum written with seven terms)
+		//  2 exactly one rotation non-zero, scale zero      3 exactly one rotation non-zero, scale non-zero
+		//  4 rotations non-zero, scale zero                  5.. all non-zero
+		shape := r.Intn(10)
+		one := r.Intn(3)
 		for i := 0; i < 3; i++ {
-			p = append(p, ff(rd((r.Float()-0.5)*10, 4), 4))
+			v := ff(rd((r.Float()-0.5)*10, 4), 4)
+			if v == "0" {
+				v = "0.0001"
+			}
+			if shape == 0 || shape == 1 || ((shape == 2 || shape == 3) && i != one) {
+				v = "0"
+			}
+			p = append(p, v)
 		}
-		p = append(p, ff(rd((r.Float()-0.5)*40, 4), 4))
+		sc := ff(rd((r.Float()-0.5)*40, 4), 4)
+		if sc == "0" {
+			sc = "0.0001"
+		}
+		if shape == 1 || shape == 2 || shape == 4 {
+			sc = "0"
+		}
+		p = append(p, sc)
 	}
 	return "+towgs84=" + strings.Join(p, ",")
 }
@@ -132,6 +158,14 @@ func towgs84(r *vproto.Rng, n int) string {
 func datumClause(r *vproto.Rng, f frame) string {
 	if f.nodatum {
 		return f.ellps
+	}
+	if f.sameEs {
+		a := rd(6360000+float64(r.Intn(30))*1000, 0)
+		d := []string{"WGS84", "NAD83", "nad83", "wgs84"}[r.Intn(4)]
+		if f.rf == 0 {
+			return "+datum=" + d + " +a=" + ff(a, 0) + " +b=" + ff(a, 0)
+		}
+		return "+datum=" + d + " +a=" + ff(a, 0) + " +rf=" + ff(f.rf, 6)
 	}
 	switch r.Intn(10) {
 	case 0, 1, 2:
@@ -323,7 +357,66 @@ func twin(r *vproto.Rng, def string, nodatum bool) (string, string) {
 		toks[i] = toks[i][:eq+1] + ff(rd(v+d, prec), prec)
 	}
 	for try := 0; try < 12; try++ {
-		switch r.Intn(9) {
+		switch r.Intn(15) {
+		case 9: // hemisphere flag of a UTM zone (a bool field)
+			if proj == "utm" {
+				if i := find("+south"); i >= 0 {
+					toks = append(toks[:i], toks[i+1:]...)
+					return strings.Join(toks, " "), "south-removed"
+				}
+				toks = append(toks, "+south")
+				return strings.Join(toks, " "), "south-added"
+			}
+		case 10: // neighbouring UTM zone
+			if i := find("+zone="); i >= 0 && proj == "utm" {
+				z, _ := strconv.Atoi(toks[i][6:])
+				if z < 60 {
+					z++
+				} else {
+					z--
+				}
+				toks[i] = "+zone=" + strconv.Itoa(z)
+				return strings.Join(toks, " "), "zone"
+			}
+		case 11: // the projection itself, among the cones that take the same parameters (names of equal length)
+			if proj == "lcc" || proj == "aea" || proj == "eqdc" {
+				if find("+lat_2=") >= 0 && find("+k_0=") < 0 && find("+k=") < 0 {
+					i := find("+proj=")
+					alt := map[string][]string{"lcc": {"aea", "eqdc"}, "aea": {"lcc", "eqdc"}, "eqdc": {"lcc", "aea"}}[proj]
+					toks[i] = "+proj=" + alt[r.Intn(2)]
+					return strings.Join(toks, " "), "proj-name"
+				}
+			}
+		case 12: // a standard parallel / the latitude of true scale / the central meridian, by 0.001 degree
+			if proj == "krovak" {
+				continue
+			}
+			if a, b := find("+lat_1="), find("+lat_2="); a >= 0 && b >= 0 && toks[a][7:] == toks[b][7:] {
+				// keep tangent cones tangent (parallels less than a degree apart are not generated)
+				bump(a, 0.001, 6)
+				bump(b, 0.001, 6)
+				return strings.Join(toks, " "), "parallels"
+			}
+			pres := []string{"+lat_1=", "+lat_2=", "+lat_ts=", "+lon_0="}
+			for _, pre := range pres[r.Intn(4):] {
+				if i := find(pre); i >= 0 {
+					bump(i, 0.001, 6)
+					return strings.Join(toks, " "), strings.Trim(pre, "+=")
+				}
+			}
+		case 13: // false northing by one metre
+			if i := find("+y_0="); i >= 0 {
+				bump(i, 1, 3)
+				return strings.Join(toks, " "), "y0-1m"
+			}
+		case 14: // the ellipsoid by name, where a datum shift makes the ellipsoid change defined
+			if i := find("+ellps="); i >= 0 && find("+towgs84=") >= 0 && proj != "krovak" && find("+b=") < 0 && find("+rf=") < 0 && find("+a=") < 0 {
+				e := ellipsoids[r.Intn(len(ellipsoids))]
+				if e != toks[i][7:] && e != "mprts" && e != "sphere" {
+					toks[i] = "+ellps=" + e
+					return strings.Join(toks, " "), "ellps-name"
+				}
+			}
 		case 0: // every towgs84 value redrawn, same number of terms
 			if i := find("+towgs84="); i >= 0 {
 				n := len(strings.Split(toks[i], ","))
@@ -459,6 +552,24 @@ func corpus(w *bufio.Writer) {
 	put(trLine([]string{"+proj=longlat +ellps=bessel +towgs84=598.1,73.7,418.2", "+proj=tmerc +lat_0=0 +lon_0=9 +k=1 +x_0=3500000 +y_0=0 +ellps=bessel +towgs84=598.1,73.7,418.2 +units=m", "+proj=tmerc +lat_0=0 +lon_0=9 +k=1 +x_0=3500000 +y_0=0 +ellps=bessel +towgs84=653,-212,449 +units=m", "+proj=longlat +ellps=bessel +towgs84=653,-212,449"}, 9.5, 50))
 	put(trLine([]string{"+proj=longlat +datum=potsdam", "+proj=longlat +ellps=bessel +towgs84=607.0,23.0,413.0"}, 9.5, 50))
 	put(trLine([]string{"+proj=longlat +a=6377397.155 +b=6356078.963 +towgs84=598.1,73.7,418.2", "+proj=longlat +a=6377398.155 +b=6356078.963 +towgs84=598.1,73.7,418.2"}, 9.5, 50))
+	// 7-term sets, every stratum of {rotations zero?, scale zero?}: scale only, one rotation only (with
+	// and without scale), rotations without scale, all four trailing terms zero, shifts zero + scale
+	for _, t7 := range []string{"598.1,73.7,418.2,0,0,0,6.7", "-87,-98,-121,0,0,0,-8.25", "-87,-98,-121,0,0,0.554,0", "-87,-98,-121,0,-0.35,0,2.5",
+		"-87,-98,-121,0.1,0.2,0.3,0", "0,0,0,0,0,0,4.5", "-87,-98,-121,0,0,0,0"} {
+		put(trLine([]string{"+proj=longlat +ellps=intl +towgs84=" + t7, wgs, "+proj=longlat +ellps=intl +towgs84=" + t7}, 5, 50))
+		put(trLine([]string{wgs, "+proj=utm +zone=19 +south +ellps=intl +towgs84=" + t7, "+proj=longlat +ellps=intl +towgs84=-87,-98,-121"}, -70.2, -33.3))
+	}
+	// WGS84-type datums (no shift) on explicit ellipsoids of equal eccentricity and different size
+	put(trLine([]string{"+proj=longlat +datum=WGS84 +a=6370000 +b=6370000", "+proj=longlat +datum=NAD83 +a=6371000 +b=6371000"}, 5, 50))
+	put(trLine([]string{"+proj=longlat +datum=WGS84 +a=6370000 +rf=298.25", "+proj=merc +lon_0=3 +datum=WGS84 +a=6379000 +rf=298.25", "+proj=longlat +datum=nad83 +a=6371000 +rf=298.25"}, 5, 50))
+	// twins differing in a flag / a name only
+	put(trLine([]string{wgs, "+proj=utm +zone=33 +datum=WGS84", "+proj=utm +zone=33 +south +datum=WGS84", wgs}, 15, 60))
+	put(trLine([]string{wgs, "+proj=lcc +lat_1=33 +lat_2=45 +lat_0=39 +lon_0=-96 +x_0=0 +y_0=0 +datum=NAD83", "+proj=aea +lat_1=33 +lat_2=45 +lat_0=39 +lon_0=-96 +x_0=0 +y_0=0 +datum=NAD83", "+proj=eqdc +lat_1=33 +lat_2=45 +lat_0=39 +lon_0=-96 +x_0=0 +y_0=0 +datum=NAD83", wgs}, -100, 40))
+	// the pole on the cone's side
+	for _, y := range []float64{90, math.Nextafter(90, 0)} {
+		put(trLine([]string{"+proj=longlat +ellps=GRS80", "+proj=lcc +lat_1=49 +lat_2=77 +lat_0=63 +lon_0=-92 +x_0=6200000 +y_0=3000000 +ellps=GRS80"}, -60, y))
+		put(trLine([]string{"+proj=longlat +ellps=GRS80", "+proj=lcc +lat_1=-49 +lat_2=-77 +lat_0=-63 +lon_0=-92 +x_0=6200000 +y_0=3000000 +ellps=GRS80"}, -60, -y))
+	}
 	// the antimeridian edge: the EPSG:3857 extent inverts to +-180 on its own side, and lon_0 +- 180 projects to its own edge
 	m3857 := "+proj=merc +a=6378137 +b=6378137 +lat_ts=0.0 +lon_0=0.0 +x_0=0.0 +y_0=0 +k=1.0 +units=m +nadgrids=@null +no_defs"
 	s3857 := "+proj=longlat +a=6378137 +b=6378137 +nadgrids=@null"
@@ -592,6 +703,28 @@ func edges(w *bufio.Writer, r *vproto.Rng, n int) {
 	}
 }
 
+// poles emits single hops geographic -> cone at the pole on the cone's side (exactly +-90 degrees and
+// one ulp below): lcc replaces the pole by a latitude 2e-10 short of it, aea/eqdc evaluate there.
+func poles(w *bufio.Writer, r *vproto.Rng, n int) {
+	kinds := []string{"lcc", "lcc", "aea", "eqdc"}
+	for i := 0; i < n; i++ {
+		f := frame{nodatum: true, ellps: ellpsClause(r)}
+		hemi := 1.0
+		if r.Bool() {
+			hemi = -1
+		}
+		lon := (r.Float() - 0.5) * 340
+		def := dropTok(genSR(r, kinds[r.Intn(len(kinds))], f, lon, hemi*60), "+pm=")
+		if strings.Contains(def, "+lat_1=-") != (hemi < 0) || (strings.Contains(def, "+lat_2=") && strings.Contains(def, "+lat_2=-") != (hemi < 0)) {
+			continue // both parallels on the pole's hemisphere
+		}
+		src := strings.TrimSpace("+proj=longlat " + f.ellps)
+		for _, y := range []float64{hemi * 90, hemi * math.Nextafter(90, 0), hemi * 89.99999999} {
+			fmt.Fprintln(w, trLine([]string{src, def}, lon, y))
+		}
+	}
+}
+
 func gen(seed uint64, tier string) {
 	w := bufio.NewWriterSize(os.Stdout, 1<<20)
 	defer w.Flush()
@@ -602,6 +735,7 @@ func gen(seed uint64, tier string) {
 		n = 30000
 	}
 	edges(w, r, n/15)
+	poles(w, r, n/30)
 	for i := 0; i < n; i++ {
 		// the geographic point (degrees from Greenwich)
 		var lonG, latG float64
@@ -622,6 +756,11 @@ func gen(seed uint64, tier string) {
 		f := frame{nodatum: r.Intn(4) == 0}
 		if f.nodatum {
 			f.ellps = ellpsClause(r)
+		} else if r.Intn(16) == 0 {
+			f.sameEs = true
+			if r.Bool() {
+				f.rf = rd(290+r.Float()*20, 6)
+			}
 		}
 		pick := func() string {
 			for {
@@ -629,7 +768,7 @@ func gen(seed uint64, tier string) {
 				if k == "krovak" && !czech {
 					continue
 				}
-				if k == "krovak" && f.nodatum && f.ellps != "+ellps=bessel" {
+				if k == "krovak" && (f.sameEs || (f.nodatum && f.ellps != "+ellps=bessel")) {
 					continue
 				}
 				if k == "utm" && math.Abs(latG) > 84 {
